@@ -292,7 +292,7 @@ func c08r3(rc *core.RC) {
 			// base = word*totalLength + word*c0
 			c0, okc := int64(0), base.OK
 			for a, c := range base.Terms {
-				if c != 0 && !(a == "totalLength" && c == word) {
+				if c != 0 && !((a == "totalLength" || strings.HasSuffix(a, ".TotalLength()")) && c == word) {
 					okc = false
 				}
 			}
@@ -306,6 +306,57 @@ func c08r3(rc *core.RC) {
 			} else {
 				rc.Check(c0 == 0, key, idxRHS.Pos(), "the trailer of a recursive frame starts at slot totalLength%+d; the program owns slots 0..totalLength-1 and the frame has totalLength+%d slots, so the %d trailer slots fit only if it starts at totalLength", c0, want, want)
 			}
+		}
+	}
+	// which program each frame length is taken from: the interpreters advance the frame base by CurLen
+	// (the frame of the program that holds the OpRecursive) and reserve NextLen more (the program jumped to)
+	if fd := p.Func("encoder", "Compiler.linkRecursiveCode"); fd != nil {
+		info := p.Info(fd)
+		le := &core.LinearEval{Info: info, Pkg: p.Pkg("encoder"), Body: fd.Body}
+		var holder, target types.Object // the OpRecursive opcode; the program stored in Jmp.Code
+		ast.Inspect(fd.Body, func(n ast.Node) bool {
+			switch x := n.(type) {
+			case *ast.RangeStmt:
+				if strings.Contains(types.ExprString(x.X), "recursiveCodes") && x.Value != nil && holder == nil {
+					holder = core.ObjOf(info, x.Value)
+				}
+			case *ast.AssignStmt:
+				if len(x.Lhs) == 1 && len(x.Rhs) == 1 {
+					if f := core.FieldOf(info, x.Lhs[0]); f != nil && f.Name() == "Code" {
+						target = core.ObjOf(info, x.Rhs[0])
+					}
+				}
+			}
+			return true
+		})
+		for _, fl := range []struct {
+			field string
+			from  *types.Object
+			what  string
+		}{{"CurLen", &holder, "the opcode that holds the jump (its program's frame is what the interpreter steps over)"}, {"NextLen", &target, "the program stored in Jmp.Code (the frame the interpreter reserves for the callee)"}} {
+			key := "encoder.linkRecursiveCode/" + fl.field + "-source"
+			var rhs ast.Expr
+			ast.Inspect(fd.Body, func(n ast.Node) bool {
+				if as, ok := n.(*ast.AssignStmt); ok && len(as.Lhs) == 1 && len(as.Rhs) == 1 {
+					if f := core.FieldOf(info, as.Lhs[0]); f != nil && f.Name() == fl.field {
+						rhs = as.Rhs[0]
+					}
+				}
+				return true
+			})
+			if rhs == nil || *fl.from == nil {
+				rc.Unknown(key, fd.Pos(), "assignment of %s, the range over recursiveCodes or the store of Jmp.Code not recognised", fl.field)
+				continue
+			}
+			l := le.Eval(rhs)
+			wantAtom := (*fl.from).Name() + ".TotalLength()"
+			ok := l.OK && l.Terms[wantAtom] == 1
+			for a, c := range l.Terms {
+				if c != 0 && a != wantAtom {
+					ok = false
+				}
+			}
+			rc.Check(ok, key, rhs.Pos(), "%s = %s; it must be %s + the trailer, the TotalLength of %s", fl.field, l, wantAtom, fl.what)
 		}
 	}
 	if fd := p.Func("encoder", "copyToInterfaceOpcode"); fd != nil {
